@@ -51,14 +51,21 @@ def qualify (p : Nm) (ins outs : List Nm) (nodes : List QNode) : List QNode :=
 /-- every name occurring in the converter's nodes -/
 def occurring (nodes : List QNode) : List Nm := nodes.flatMap (fun nd => nd.ins ++ nd.outs)
 
-/-- A node name as the builder assigns it (`{prefix}{op_type}_{i}`): it does not end in `_` and does not
-    contain `__`. -/
-def Clean (p : Nm) : Prop := (∀ u, p ≠ u ++ ['_']) ∧ (∀ u v, p ≠ u ++ ('_' :: '_' :: v))
+/-- A node name as the builder assigns it (`ScopeSpace.enum`: `f"{base}_{i}"`, where `base` is the operator's
+    identifier, inside a body prefixed with `f"{subgraph name}__"`): it does not end in `_`. -/
+def EndsClean (p : Nm) : Prop := ∀ u, p ≠ u ++ ['_']
 
-/-- executable version of `Clean` (what the harness checks of every observed node name) -/
-def cleanB : Nm → Bool
+/-- A name that does not contain the separator `__` (the names `onnx.version_converter` invents). -/
+def NoSep (a : Nm) : Prop := ∀ u v, a ≠ u ++ ('_' :: '_' :: v)
+
+/-- executable versions (what the harness checks of every observed node name / introduced name) -/
+def endsCleanB : Nm → Bool
   | [] => true
   | [c] => c != '_'
-  | c :: d :: r => !(c == '_' && d == '_') && cleanB (d :: r)
+  | _ :: d :: r => endsCleanB (d :: r)
+
+def noSepB : Nm → Bool
+  | c :: d :: r => !(c == '_' && d == '_') && noSepB (d :: r)
+  | _ => true
 
 end Opset.Qualify
